@@ -15,6 +15,13 @@ REQUIRED = ["skeleton_dump", "skeleton_dumps", "flow_facts", "encode_none", "fai
 OLD = b"bytes that were in the destination before"
 
 
+# the object itself refuses (its __getstate__ / __reduce__ raises): dump must raise whatever else changes
+REFUSES = {"raising-getstate", "raising-reduce", "conditional-reduce", "stopiteration-getstate", "stopiteration-in-tuple",
+           "attributeerror-getstate", "keyerror-getstate"}
+# dumped by the pinned tree although it cannot be loaded back (a lambda is recorded by name): not a failure case of C18
+LEGACY_DUMPED = {"lambda"}
+
+
 def poisons():
     """elements that make get_state raise"""
     import numpy as np
@@ -34,7 +41,39 @@ def poisons():
         ("conditional-reduce", lambda: [U.SometimesRaises(True), {"k": U.SometimesRaises(True)}, U.SometimesRaises(False)]),
         ("stopiteration-getstate", lambda: U.RaisesStopIteration()),
         ("stopiteration-in-tuple", lambda: (1, [2, U.RaisesStopIteration()], 3)),
+        ("attributeerror-getstate", lambda: U.GetstateAttributeError()),
+        ("keyerror-getstate", lambda: U.GetstateKeyError()),
+        ("masked-cell-of-object-masked-array", lambda: _masked(hidden=True)),
+        ("visible-cell-of-object-masked-array", lambda: _masked(hidden=False)),
+        ("cell-of-object-array", lambda: _objarr()),
+        ("partial-keyword-generator", lambda: __import__("functools").partial(U.module_function, x=(i for i in range(2)))),
+        ("ordered-dict-value", lambda: __import__("collections").OrderedDict(a=1, b=memoryview(b"zz"))),
+        ("attribute-of-estimator", lambda: _estimator_with(memoryview(b"attr"))),
     ]
+
+
+def _masked(hidden):
+    import numpy as np
+
+    data = np.empty(3, dtype=object)
+    data[0], data[1], data[2] = 1, (i for i in range(2)), "s"
+    return np.ma.MaskedArray(data, mask=[False, hidden, not hidden])
+
+
+def _objarr():
+    import numpy as np
+
+    a = np.empty((2, 2), dtype=object)
+    a[0, 0], a[0, 1], a[1, 0], a[1, 1] = 1, "x", [1, (i for i in range(2))], None
+    return a
+
+
+def _estimator_with(v):
+    from sklearn.linear_model import LinearRegression
+
+    est = LinearRegression()
+    est.extra_ = {"deep": [1, (2, v)]}
+    return est
 
 
 def positions(v, path=()):
@@ -120,7 +159,8 @@ SINKS = ["existing-str", "existing-path", "new-str", "new-path", "existing-fileo
 def run(ctx):
     t0 = time.time()
     lean_ok = ctx.build(required_theorems=REQUIRED)
-    from skops.io import dumps
+    from skops.io import dumps, get_untrusted_types, loads
+    from ..compare import same
 
     g = objgen.G(ctx.rng)
     ofails, mism = [], []
@@ -137,10 +177,25 @@ def run(ctx):
     # which poisons really make dumps raise on the current tree (a poison that dumps fine is no failure case)
     active = []
     for name, mk in ps:
+        orig = mk()
         try:
-            dumps(mk())
+            data = dumps(orig)
         except Exception:
             active.append((name, mk))
+            continue
+        rep = dict(kind="poison-dumped", poison=name, repr=repr(orig)[:300])
+        if name in REFUSES:
+            ofails.append((f"refusal-ignored: dumps() returned an archive for an object whose own __getstate__/__reduce__ raises ({name})", rep))
+        elif name not in LEGACY_DUMPED:
+            # no error: then the element must really have been persisted (a new supported type), not dropped or replaced
+            try:
+                back = loads(data, trusted=get_untrusted_types(data=data))
+                diff = same(orig, back)
+            except Exception as ex:
+                diff = f"the archive cannot be loaded ({type(ex).__name__})"
+            if diff:
+                ofails.append((f"dumped-with-loss: dumps() returned an archive for an object holding an unsupported value ({name}) "
+                               f"instead of raising; what it loads to differs: {str(diff)[:200]}", rep))
     model_reqs, model_meta = [], []
     for si, v in enumerate(structures):
         pos = positions(v)
